@@ -74,7 +74,7 @@ def compile_ext(root, variant):
         (os.path.join(sim, "_canneal.c"), KERNEL_RENAMES),
         (os.path.join(srcd, "anneal_quso.c"), KERNEL_RENAMES),
         (os.path.join(srcd, "anneal_puso.c"), KERNEL_RENAMES),
-        (os.path.join(srcd, "random.c"), ["-Dtime=verif_time"]),
+        (os.path.join(srcd, "random.c"), ["-Dtime=verif_time", "-Dpcg32_random_r=verif_raw32", "-Dpcg32_boundedrand_r=verif_raw_bounded"]),
         (os.path.join(srcd, "pcg_basic.c"), []),
         (os.path.join(HERE, "shim.c"), extra),
     ]
